@@ -4,7 +4,7 @@ from .ref import Obj, VA, Phys, Table, SIZES, FIXED_TIDS, ALL_TIDS, is_arr, pack
 
 NAMES = [b"Name", b"DataType", b"a", b"b", b"ab", b"Unit", b"\xc3\xa9t\xc3\xa9", b"x" * 130, b""]
 PROPS = [b"IsInvalid", b"ErrorCode", b"HasReplacedValue", b"p", b"q"]
-EDGE_LENS = [0, 1, 2, 7, 127, 128, 129, 300]
+EDGE_LENS = [0, 1, 2, 7, 127, 128, 129, 255, 256, 300, 383]
 BIG_LENS = [16383, 16384, 16385]
 ROWS = [0, 1, 2, 7, 8, 9, 15, 16, 17, 255, 256, 257, 511, 512, 513, 600]
 
